@@ -50,7 +50,18 @@ pub fn run_main(
         };
         replay(&mut rep, &case);
     } else {
-        run(&mut rep);
+        // A harness-side unwrap on something the implementation returned (e.g. the real parser
+        // rejecting a well-formed generated input) must end in a verdict, not in a crash.
+        let r = std::panic::catch_unwind(std::panic::AssertUnwindSafe(|| run(&mut rep)));
+        if r.is_err() {
+            let msg = common::take_last_panic().unwrap_or_else(|| "panic".to_string());
+            rep.fail(
+                "oracle",
+                None,
+                format!("the check could not continue because the implementation returned something a correct implementation never returns: {}", msg),
+                serde_json::json!({"op": "harness-abort", "panic": msg}),
+            );
+        }
     }
     rep.finish();
 }
